@@ -3,7 +3,7 @@
    Proofs/BoundCuts.v. *)
 From Coq Require Import List NArith Bool Arith.
 From SV Require Import Clock.VClock Prim.Objects Prim.Atomic Engine.Exec Engine.Inv Sched.Replay Engine.Stmt
-  Lang.Prog Proofs.EngineBase Proofs.ProgOk Proofs.EngineProofs Proofs.BoundProofs Proofs.BoundTotal Proofs.BoundCuts.
+  Engine.Runner Engine.RunStmt Proofs.RunnerProofs Lang.Prog Proofs.EngineBase Proofs.ProgOk Proofs.EngineProofs Proofs.BoundProofs Proofs.BoundTotal Proofs.BoundCuts.
 Import ListNotations.
 
 Theorem C13_bound_decisions : stmt_bound_decisions. Proof. exact bound_decisions_proof. Qed.
@@ -23,6 +23,25 @@ Print Assumptions C13_bound_total.
 
 Theorem C13_bound_only_cuts : stmt_bound_only_cuts. Proof. exact bound_only_cuts_proof. Qed.
 Print Assumptions C13_bound_only_cuts.
+
+(* ---- the iteration loop: budget, first failure, time limit ---- *)
+Theorem C13_run_ends : stmt_run_ends. Proof. exact run_ends_proof. Qed.
+Print Assumptions C13_run_ends.
+
+Theorem C13_run_first_failure : stmt_run_first_failure. Proof. exact run_first_failure_proof. Qed.
+Print Assumptions C13_run_first_failure.
+
+Theorem C13_time_never : stmt_time_never. Proof. exact time_never_proof. Qed.
+Print Assumptions C13_time_never.
+
+Theorem C13_time_bound : stmt_time_bound. Proof. exact time_bound_proof. Qed.
+Print Assumptions C13_time_bound.
+
+Theorem C13_time_started : stmt_time_started. Proof. exact time_started_proof. Qed.
+Print Assumptions C13_time_started.
+
+Theorem C13_time_prefix : stmt_time_prefix. Proof. exact time_prefix_proof. Qed.
+Print Assumptions C13_time_prefix.
 
 (* stmt_bound_unaffected as written (with <=) is refuted by main = Ret under FailAfter 1 *)
 
